@@ -21,7 +21,9 @@ try:
     else:
         p = os.path.join(dst, a.file)
         s = open(p).read()
-        assert s.count(a.old) == 1, f"pattern count {s.count(a.old)}"
+        if s.count(a.old) != 1:
+            print(f"[{a.name}] STALE-PATTERN: OLD occurs {s.count(a.old)} times in {a.file}")
+            sys.exit(4)
         open(p, "w").write(s.replace(a.old, a.new))
     env = dict(os.environ, PYTHONPATH=dst, PYTHONDONTWRITEBYTECODE="1")
     if not a.skip_tests:
